@@ -8,14 +8,15 @@ Variable cap : Z.
 Variable ucfg : bool.
 Variable daf : bool.
 
-Notation step := (Shutdown.step cap ucfg daf true).
-Notation apply := (Shutdown.apply cap ucfg daf true).
-Notation run_from := (Shutdown.run_from cap ucfg daf true).
-Notation run := (Shutdown.run cap ucfg daf true).
-Notation prompt_from := (Shutdown.prompt_from cap ucfg daf true).
-Notation prompt := (Shutdown.prompt cap ucfg daf true).
-Notation step_thread := (Shutdown.step_thread cap daf true).
-Notation work_step := (Shutdown.work_step daf true).
+Notation step := (Shutdown.step cap ucfg daf true true).
+Notation apply := (Shutdown.apply cap ucfg daf true true).
+Notation run_from := (Shutdown.run_from cap ucfg daf true true).
+Notation run := (Shutdown.run cap ucfg daf true true).
+Notation prompt_from := (Shutdown.prompt_from cap ucfg daf true true).
+Notation prompt := (Shutdown.prompt cap ucfg daf true true).
+Notation step_thread := (Shutdown.step_thread cap daf true true).
+Notation work_step := (Shutdown.work_step daf true true).
+Notation fail_exit := (Shutdown.fail_exit true).
 Notation step_run := (Shutdown.step_run ucfg).
 Notation connect := (Shutdown.connect ucfg).
 
@@ -282,7 +283,7 @@ Proof.
     + intros _. repeat split; auto; apply dead_of; auto; lia.
     + rewrite Hs; split; discriminate.
   - (* RSave *)
-    injection E as <-.
+    destruct (d_rlock (w_dat w)); [discriminate|]. injection E as <-.
     assert (Hs : stopped w = false) by (apply not_stopped_of_pc; [exact H|congruence]).
     assert (Hd : all_dead (w_thr w)) by (apply (inv_idle w H); rewrite Ep; reflexivity).
     inv_destruct H. constructor; cbn; try assumption; try discriminate; try reflexivity.
@@ -329,7 +330,7 @@ Proof. intros H Et. unfold end_body. eapply inv_set_live; eassumption. Qed.
 
 Lemma inv_fail_exit w t p f : Inv w -> thread w t = TLive p f -> Inv (fail_exit w t).
 Proof.
-  intros H Et. unfold fail_exit.
+  intros H Et. unfold Shutdown.fail_exit.
   destruct t; try (eapply inv_end_body; eassumption).
   - eapply inv_exit; [apply inv_request_stop, H|thr|discriminate].
   - eapply inv_exit; [apply inv_restart, H|thr|discriminate].
